@@ -13,6 +13,7 @@ every `fuel` above the stated bound the result is the model's, so `FuelExhausted
 is never returned.
 -/
 set_option linter.unusedTactic false   -- `py_norm` is a no-op for the current spelling of some loops
+set_option linter.unusedSimpArgs false   -- simp sets list alternative spellings (`1 << n` / `2 ** n`)
 namespace Proofs.T1.Bitfun
 open Model Model.PyRt Model.Bitfun Gen.Py_bitfun Proofs.T1
 
@@ -67,7 +68,7 @@ theorem gen_rotate_left_eq_model (fuel : Nat) (v n : Int) :
 theorem gen_rotl_eq_model (fuel : Nat) (v count : Int) (bits : Nat) :
     rotl fuel v count (bits : Int) = liftI (Model.Bitfun.rotl v count bits) := by
   unfold Gen.Py_bitfun.rotl Model.Bitfun.rotl
-  simp only [shl_natCast, bind_ok]
+  simp only [shl_natCast, pow_natCast, bind_ok]
   by_cases hb : bits = 0
   · subst hb; simp [mod_zero, liftI, errOf]
   · have hpos : (0 : Int) < bits := by omega
@@ -81,7 +82,7 @@ theorem gen_rotl_eq_model (fuel : Nat) (v count : Int) (bits : Nat) :
 theorem gen_rotr_eq_model (fuel : Nat) (v count : Int) (bits : Nat) :
     rotr fuel v count (bits : Int) = liftI (Model.Bitfun.rotr v count bits) := by
   unfold Gen.Py_bitfun.rotr Model.Bitfun.rotr
-  simp only [shl_natCast, bind_ok]
+  simp only [shl_natCast, pow_natCast, bind_ok]
   by_cases hb : bits = 0
   · subst hb; simp [mod_zero, liftI, errOf]
   · have hpos : (0 : Int) < bits := by omega
@@ -98,7 +99,7 @@ theorem gen_correct_eq_model (fuel : Nat) (value : Int) (bits : Nat) (signed : B
     Gen.Py_bitfun.correct fuel value (bits : Int) (PyRt.ofBool signed) = .ok (Model.Bitfun.correct value bits signed) := by
   unfold Gen.Py_bitfun.correct Model.Bitfun.correct
   have hpos : (0 : Int) < 2 ^ bits := Proofs.Bits.pow_pos bits
-  simp only [shl_natCast, bind_ok, Int.one_mul]
+  simp only [shl_natCast, pow_natCast, bind_ok, Int.one_mul]
   simp only [mod_of_pos _ hpos, bind_ok, PyRt.bitLength, PyRt.ofBool]
   cases signed
   · simp
@@ -147,7 +148,7 @@ theorem gen_reverse_loop : ∀ (p : Nat) (v y : Int) (fuel : Nat), p + 1 ≤ fue
     have e : ((p + 1 : Nat) : Int) - 1 = (p : Int) := by omega
     unfold reverse_bits_loop1
     rw [e, if_pos (by omega)]
-    simp only [shl_natCast, bind_ok, revLoop]
+    simp only [shl_natCast, pow_natCast, bind_ok, revLoop]
     py_norm
     exact ih (v / 2) (y + v % 2 * 2 ^ p) f (by omega)
 
@@ -245,7 +246,7 @@ theorem gen_popcnt_loop (bits : Nat) (v : Int) : ∀ (r i count fuel : Nat), r +
     obtain ⟨f, rfl⟩ : ∃ f, fuel = f + 1 := ⟨fuel - 1, by omega⟩
     unfold popcnt_loop1
     rw [if_pos (by omega)]
-    simp only [shl_natCast, bind_ok, Int.one_mul, List.range'_succ, List.foldl_cons]
+    simp only [shl_natCast, pow_natCast, bind_ok, Int.one_mul, List.range'_succ, List.foldl_cons]
     have ei : (i : Int) + 1 = ((i + 1 : Nat) : Int) := by omega
     by_cases hz : PyInt.and v (2 ^ i) ≠ 0
     · rw [if_pos hz, if_pos hz, ei]
@@ -378,7 +379,7 @@ theorem gen_align_eq_model (fuel : Nat) (value : Int) (m : Nat) (hf : m + 1 ≤ 
 theorem gen_wrap_negative_eq_model (fuel : Nat) (value : Int) (bits : Nat) :
     Gen.Py_bitfun.wrap_negative fuel value (bits : Int) = liftI (wrapNegative value bits) := by
   unfold Gen.Py_bitfun.wrap_negative wrapNegative
-  simp only [shl_natCast, bind_ok, Int.one_mul]
+  simp only [shl_natCast, pow_natCast, bind_ok, Int.one_mul]
   by_cases hb : bits = 0
   · subst hb; simp [shl_of_neg, liftI, errOf]
   · have e : ((bits : Int) - 1).toNat = bits - 1 := by omega
